@@ -133,7 +133,7 @@ static void build_canon(void) {
 }
 
 /* ------------------------------------------------------------------ a world: one context + the trust anchors parsed on it */
-typedef struct { uint64_t key; KSI_PublicationsFile *upf; KSI_PublicationData *upd; } anchor_t;
+typedef struct { uint64_t key; KSI_PublicationsFile *upf[2]; KSI_PublicationData *upd; } anchor_t;   /* upf[0]: publications only; upf[1]: + calendar key certificate */
 #define MAXANCH 12
 typedef struct {
 	KSI_CTX *ctx;
@@ -141,7 +141,6 @@ typedef struct {
 	KSI_AggregationHashChain *local[NCAN];     /* local aggregation chain objects the caller holds (one per canonical ancestor) */
 	int local_tried[NCAN];                     /* number of failed prepends the held object went through */
 	int last_prepend_retry;
-	int pki_attached;
 	long log_msgs;
 } world_t;
 
@@ -151,8 +150,8 @@ static int discard_log(void *logCtx, int level, const char *message) {
 	return KSI_OK;
 }
 
-/* like fx_ctx(1, 0), but the PKI trust store (reading the CA file costs more than everything else in a short history) is attached
- * when the first publications file is handed to the context */
+/* like fx_ctx(1, 0) without the PKI trust store: the publications files are handed over by the caller (userPublicationsFile), which the
+ * SDK never PKI-verifies, so the trust store would only cost time (reading the CA file dominates a short history) */
 static void world_open(world_t *w) {
 	static KSI_CertConstraint c[2];
 	memset(w, 0, sizeof *w);
@@ -167,18 +166,19 @@ static void world_open(world_t *w) {
 }
 static void world_close(world_t *w) {
 	int i;
-	for (i = 0; i < w->na; i++) { KSI_PublicationsFile_free(w->a[i].upf); KSI_PublicationData_free(w->a[i].upd); }
+	for (i = 0; i < w->na; i++) { KSI_PublicationsFile_free(w->a[i].upf[0]); KSI_PublicationsFile_free(w->a[i].upf[1]); KSI_PublicationData_free(w->a[i].upd); }
 	for (i = 0; i < NCAN; i++) KSI_AggregationHashChain_free(w->local[i]);
 	KSI_CTX_free(w->ctx);
 	memset(w, 0, sizeof *w);
 }
 
-/* publications file bytes per aggregation root (PKCS#7 signing is expensive): early publication, FX_P0 and FX_P1 roots, the calendar key certificate */
+/* publications file bytes per aggregation root (PKCS#7 signing is expensive): early publication, FX_P0 and FX_P1 roots, optionally the calendar
+ * key certificate (parsing the certificate record doubles the cost of parsing the file, so only the key-based policy gets it) */
 typedef struct { uint64_t key; vbuf bytes; } pf_entry;
 static pf_entry PFC[64];
 static int npfc;
-static const vbuf *pubfile_bytes(const sdesc *d) {
-	uint64_t key = vf_fnv(d->root, d->root_len, 0x22);
+static const vbuf *pubfile_bytes(const sdesc *d, int with_cert) {
+	uint64_t key = vf_fnv(d->root, d->root_len, with_cert ? 0x23 : 0x22);
 	uint64_t times[3] = {FX_PE, FX_P0, FX_P1};
 	unsigned char hashes[3][RH_MAX_IMPRINT];
 	size_t hlens[3];
@@ -191,10 +191,11 @@ static const vbuf *pubfile_bytes(const sdesc *d) {
 	memcpy(hashes[2], d->cal1, d->cal1_len); hlens[2] = d->cal1_len;
 	PFC[npfc].key = key;
 	vb_init(&PFC[npfc].bytes);
-	fx_make_pubfile(&PFC[npfc].bytes, 3, times, hashes, hlens, 1, certs, &fx_pub_signer);
+	fx_make_pubfile(&PFC[npfc].bytes, 3, times, hashes, hlens, with_cert ? 1 : 0, certs, &fx_pub_signer);
 	return &PFC[npfc++].bytes;
 }
 
+/* need_file: 0 none, 1 publications only, 2 with certificate */
 static anchor_t *anchor_for(world_t *w, const sdesc *d, int need_file, int need_pub) {
 	uint64_t key = vf_fnv(d->root, d->root_len, d->has_pub ? 0x33 : 0x44);
 	anchor_t *a = NULL;
@@ -206,15 +207,9 @@ static anchor_t *anchor_for(world_t *w, const sdesc *d, int need_file, int need_
 		memset(a, 0, sizeof *a);
 		a->key = key;
 	}
-	if (need_file && !w->pki_attached) {
-		KSI_PKITruststore *pki = NULL;
-		if (KSI_PKITruststore_new(w->ctx, 0, &pki) != KSI_OK || KSI_PKITruststore_addLookupFile(pki, rk_ca_file(0)) != KSI_OK
-			|| KSI_CTX_setPKITruststore(w->ctx, pki) != KSI_OK) vf_harness_error("truststore");
-		w->pki_attached = 1;
-	}
-	if (need_file && a->upf == NULL) {
-		const vbuf *pf = pubfile_bytes(d);
-		if (KSI_PublicationsFile_parse(w->ctx, pf->p, pf->n, &a->upf) != KSI_OK) vf_harness_error("fixture publications file refused");
+	if (need_file && a->upf[need_file - 1] == NULL) {
+		const vbuf *pf = pubfile_bytes(d, need_file == 2);
+		if (KSI_PublicationsFile_parse(w->ctx, pf->p, pf->n, &a->upf[need_file - 1]) != KSI_OK) vf_harness_error("fixture publications file refused");
 	}
 	if (need_pub && a->upd == NULL) {
 		/* the signature's own publication, or a later one that needs the extender */
@@ -237,7 +232,8 @@ static void do_verify(world_t *w, KSI_Signature *sig, const sdesc *d, int pol, i
 	KSI_VerificationContext vc;
 	KSI_PolicyVerificationResult *res = NULL;
 	KSI_DataHash *h = NULL;
-	anchor_t *a = anchor_for(w, d, pol == P_PUBFILE || pol == P_KEY || pol == P_GENERAL, pol == P_USERPUB);
+	int need_file = pol == P_KEY ? 2 : (pol == P_PUBFILE || pol == P_GENERAL) ? 1 : 0;
+	anchor_t *a = anchor_for(w, d, need_file, pol == P_USERPUB);
 	if (KSI_VerificationContext_init(&vc, w->ctx) != KSI_OK) vf_harness_error("VerificationContext_init");
 	vc.signature = sig;
 	vc.docAggrLevel = LEVELS[lvl];
@@ -250,7 +246,7 @@ static void do_verify(world_t *w, KSI_Signature *sig, const sdesc *d, int pol, i
 		vc.documentHash = h;
 	}
 	if (pol == P_USERPUB) vc.userPublication = a->upd;
-	if (pol == P_PUBFILE || pol == P_KEY || pol == P_GENERAL) vc.userPublicationsFile = a->upf;
+	if (need_file) vc.userPublicationsFile = a->upf[need_file - 1];
 	server_for(d, ext);
 	v->rc = KSI_SignatureVerifier_verify(policy_of(pol), &vc, &res);
 	g_calls++;
